@@ -165,6 +165,8 @@ pub fn c03_fault(rng: &mut Rng, names: &[String], foreign_tok: usize) -> Fault {
     let idx = rng.usize(24);
     match rng.usize(17) {
         16 => match rng.usize(8) {
+            // rarely beyond 2^16 (16-bit slot numbers, u16 counters)
+            0 if rng.chance(1, 30) => Fault::FloodDisclosures { n: 65_540 + rng.usize(300), at: rng.usize(4) },
             0 => Fault::FloodDisclosures { n: *rng.pick(&[130usize, 300, 1100, 4100, 5000]), at: rng.usize(24) },
             1 | 2 | 3 => Fault::MergeDisclosures { i: idx },
             4 | 5 => Fault::DisclosuresIntoKbSlot { n: rng.usize(3) },
@@ -456,6 +458,26 @@ pub fn gen_c02(rng: &mut Rng, tier: Tier) -> MsgScn {
         }
         cases.push(c);
     }
+    // tokens whose protected header names a key (kid / x5c / jku / embedded jwk), and JSON envelopes
+    // with an *unprotected* header member next to them: the resolver must be handed the signed header
+    if !iss[0].key.starts_with("hs") {
+        for _ in 0..3 {
+            let mut c = plain(main.clone(), rand_fmt(rng));
+            c.session = session_for(rng, &main);
+            c.faults.push(Fault::AlgRewrite(if rng.bool() {
+                AlgMode::ResignBigHeader { kid: iss[0].key.clone(), bytes: 8 + rng.usize(40), param: rng.usize(3) as u8 }
+            } else {
+                AlgMode::ResignEmbedJwk(iss[0].key.clone())
+            }));
+            if rng.bool() {
+                c.extra = vec![("header".into(), rng.pick(&[json!({"kid": "another-key"}), json!({"x5c": ["AAAA"], "jku": "https://attacker.example/keys"}), json!({"alg": "none", "kid": "k"}), json!("not-an-object")]).clone())];
+            }
+            cases.push(c);
+        }
+        let mut c = plain(main.clone(), Fmt::Json);
+        c.extra = vec![("header".into(), json!({"kid": "another-key", "x5t": "x", "x5t#S256": "y", "x5u": "https://attacker.example/c", "jku": "https://attacker.example/keys"}))];
+        cases.push(c);
+    }
     // the message as a transport or wrapper would carry it (percent-encoding, JSON string
     // literal, line folding, surrounding blanks, other base64 alphabet …): whatever the verifier
     // un-wraps, what it accepts must be a JWT text the issuer signed
@@ -679,7 +701,7 @@ pub fn gen_c04(rng: &mut Rng, tier: Tier) -> MsgScn {
                     None
                 } else {
                     Some(match field {
-                        KbField::Typ => json!(rng.pick(&["JWT", "kb-jwt", "KB+JWT", "sd+jwt", "", "application/kb+jwt", "kb+jwt ", " kb+jwt", "kb+jwt;v=1", "kb+JWT"]).to_string()),
+                        KbField::Typ => json!(rng.pick(&["JWT", "kb-jwt", "KB+JWT", "sd+jwt", "", "application/kb+jwt", "kb+jwt ", " kb+jwt", "kb+jwt;v=1", "kb+JWT", "Key-Binding\u{2011}JWT", "application\u{2215}kb+jwt", "kb+jwt\u{e9}", "\u{e9}kb+jwt", "applicatio\u{1F600}/kb+jwt", "kb\u{ff0b}jwt", "APPLICATION/KB+JWT", "k\u{212a}b+jwt"]).to_string()),
                         KbField::Nonce => {
                             match rng.usize(3) {
                                 0 => json!(format!("{}x", s1.1)),
